@@ -248,7 +248,7 @@ JudgeOut judge(const json &plan)
 	add_exec_counters(out, r);
 	note_schedule(out, plan);
 	death_and_stdout(r, "", out.viol);
-	out.viol.erase(std::remove_if(out.viol.begin(), out.viol.end(), [](const Violation &v) { return v.cls.compare(0, 7, "stdout:") == 0; }), out.viol.end());
+	out.viol.erase(std::remove_if(out.viol.begin(), out.viol.end(), [](const Violation &v) { return v.cls.compare(0, 7, "stdout:") == 0 || v.cls.compare(0, 6, "stdin:") == 0; }), out.viol.end());
 	// abort() inside a context creation whose allocation was made to fail is C18's listed finding, not this property's
 	for (auto &o : r.ops)
 		if (o.death == D_ABORT && o.fail_fired) {
